@@ -132,6 +132,7 @@ type Exchange struct {
 	BodyFault    *Fault
 	Delivered    int
 	SilentCancel bool // the request context was cancelled while the body stream stayed healthy
+	CtxCancelled string // "before" | "at-call": the request context was cancelled although no stream broke
 	RespCut      bool // the client went away while the answer was being written: Write failed after RespCutAt bytes
 	RespCutAt    int
 }
@@ -372,7 +373,9 @@ func (ex *executor) run() {
 			time.Sleep(time.Duration(st.DelayNS))
 		}
 		ex.res.Stats.Steps++
-		if len(st.During) > 0 {
+		if st.Kind == "reconfigure" {
+			ex.reconfigure(i)
+		} else if len(st.During) > 0 {
 			ex.overlapStep(i, st)
 		} else if st.Call != nil {
 			ex.callStep(i, st)
@@ -386,6 +389,33 @@ func (ex *executor) run() {
 	if msg, changed := w.OutsideChanged(); changed {
 		ex.finding(Violation{Prop: "C03", Clause: "canary-changed", Class: "end-of-run", Msg: msg, Step: len(p.Steps)})
 	}
+}
+
+// reconfigure points the long-lived Handler at another directory between two
+// requests (its exported FileSystem field is assigned, as an operator's reload
+// would): from then on THAT is the served directory, the former one is outside.
+func (ex *executor) reconfigure(idx int) {
+	h, ok := ex.h.(*webdav.Handler)
+	if !ok || ex.plan.Config.Store == "memfs" || strings.HasPrefix(ex.plan.Config.RootForm, "rel-") {
+		return
+	}
+	other := realfp.Join(ex.w.Sandbox, fmt.Sprintf("second-root-%d", idx))
+	realos.MkdirAll(realfp.Join(other, "a"), 0o755)
+	realos.WriteFile(realfp.Join(other, "a", "b"), []byte("in the second root"), 0o644)
+	realos.WriteFile(realfp.Join(other, "c"), []byte("c of the second root"), 0o644)
+	for _, p := range []string{realfp.Join(other, "a", "b"), realfp.Join(other, "a"), realfp.Join(other, "c"), other} {
+		realos.Chtimes(p, time.Now(), time.Now()) // the fake clock: tags must not depend on the host's
+	}
+	h.FileSystem = webdav.LocalFileSystem(other)
+	ex.fs = h.FileSystem
+	ex.w.Root = other
+	ex.seam.Root = other
+	ex.leaks = append(ex.leaks, other)
+	ex.w.outside = OutsideListing(ex.w.Sandbox, other)
+	ex.snap = ex.snapshot()
+	ex.tags = nil
+	ex.log.Addf("step %d the handler is reconfigured to serve $SB/%s", idx, realfp.Base(other))
+	ex.probe("handler-reconfigured")
 }
 
 // spellRoot writes the served directory the way an operator might configure
@@ -510,6 +540,18 @@ func (ex *executor) serve(idx int, st *Step) *Exchange {
 	}
 	ctx, cancel := context.WithCancel(context.Background())
 	defer cancel()
+	ctxCancelled := ""
+	for i := range st.Faults {
+		if st.Faults[i].Seam == "ctx" {
+			switch st.Faults[i].Kind {
+			case "before":
+				cancel() // the client was gone before the handler even started
+				ctxCancelled = "before"
+			case "at-call":
+				ex.seam.Cancel = cancel
+			}
+		}
+	}
 	var bf *Fault
 	for i := range st.Faults {
 		if st.Faults[i].Seam == "req-body" {
@@ -571,6 +613,10 @@ func (ex *executor) serve(idx int, st *Step) *Exchange {
 	xc.BodyFault = bf
 	xc.Delivered = body.Delivered()
 	xc.SilentCancel = body.SilentCancel()
+	if ex.seam.Cancelled {
+		ctxCancelled = "at-call"
+	}
+	xc.CtxCancelled = ctxCancelled
 	xc.Req.BodyBroken = body.Failed
 	if body.CutClean {
 		// the server saw a shorter, clean stream: that is what was "sent"
@@ -625,6 +671,9 @@ func (ex *executor) rawStep(idx int, st *Step) {
 	}
 	if xc.BodyFailed || xc.BodyCut || xc.SilentCancel {
 		ex.res.Stats.FaultsFired["req-body:"+xc.BodyFault.Kind]++
+	}
+	if xc.CtxCancelled != "" {
+		ex.res.Stats.FaultsFired["ctx:"+xc.CtxCancelled]++
 	}
 	if xc.RespCut {
 		ex.res.Stats.FaultsFired["resp-write:broken-pipe"]++
